@@ -57,8 +57,59 @@ Coverage audit (item of the property text -> stream that drives it ON THE IMPLEM
     partial metadata, k up to 32; `info` plain report, `--json --pretty`, `-d DIR info -d -i`      cli-forms (P)
 Not driven: szip (libhdf5 refuses small chunks), bytes ids (come back as str; not "string or integer IDs"), `query -s`
 and ReferenceDatabase.load on a foreign file (need a genome database; same load_signatures call), HDF5 files with a user
-block, n = 0, single signatures of more than 2^17 + 1 values.  The api / size-classes / foreign2 / cli-forms streams have no
-model counterpart: predicate only."""
+block, n = 0, single signatures of more than 2^17 + 1 values.  The api / size-classes / foreign2 / cli-forms / seq streams have no
+model counterpart: predicate only.
+
+State and aliasing (audit of what can outlive one call; kind `seq` = a script of calls over ONE pool of objects, every step judged
+by the same predicate as the single-call streams).  Dimensions: (a) the object is used by >= 2 calls whose other arguments differ
+(other collection / length / k / integer type / filter / writer / path), in both orders; (b) the caller's object is compared, after
+every call, with a snapshot taken before (content, types, public and existing private attributes, array dtype / shape / strides /
+writeable flag / bytes; private attributes that only appear are tolerated); (c) a call that fails part-way is followed by a good call
+on the same objects; (d) the same call is made twice and must give the same result; (e) second thread / after fork.
+  entry point                              object that outlives the call                          (a)  (b)  (c)  (d)  (e)   driven by
+  dump_signatures, base.dump_signatures,   the collection (SignatureArray values / bounds,         seq  seq  seq  seq  -     seq: dump / dump_fail / mutate
+  dump_signatures_hdf5,                      SignatureList._list and its arrays, wrapper stack,    api  api            (single call: api-reuse `twice`,
+  HDF5Signatures.create                      user subclass); its ids (list / 'U' / 'O' / int        snapshot after writing)
+                                             array); its SignaturesMeta and the `extra` dict in it
+                                           one SignaturesMeta serving two collections               seq  seq  -    -    -     seq: meta_from
+                                           one KmerSpec serving collections of different length /   seq  seq  -    -    -     seq: share_ks (compared at the end)
+                                             integer type
+                                           the destination path: holds text / an HDF5 file of       seq  n/a  seq  seq  -     seq: path-reuse, foreign-then-real,
+                                             another kind / a truncated file / collection A, then                               real-then-foreign (api-reuse overwrite:
+                                             collection B; refused by a load before it is written                               written over once, never loaded before)
+                                           keyword values (compression, compression_opts)           n/a: ints / str / None, the dict is copied by the ** call
+                                           an open reader given as the collection (file -> file)    seq  seq  -    -    -     seq: redump (api-wrap reloaded: once)
+                                           the h5py group given to create                           api-writer create_* (one call per file); not in seq
+                                           a source that raises while it is read (signature i of    -    seq  seq  -    -     seq: dump_fail getitem_raises / ids_len /
+                                             a caller-supplied container; ids of the wrong length;                              bad_comp, then the same collection again
+                                             unknown filter after ids / bounds are written)
+  load_signatures, base.load_signatures,   the path (see above); module state of the reader          seq  n/a  seq  seq  -     seq: load (`twice`), foreign + load
+  load_signatures_hdf5, HDF5Signatures(g)  load keyword dict (mode, driver ...)                       n/a: copied by the ** call; api-rkw single calls
+  loaded collection: s[i], s[a:b:c],       the reader s (group, values / bounds datasets, ids        seq  seq  seq  seq  seq   seq: index / observe / thread; two or
+  s[list / array / mask / range], iter,      array, meta); two or three readers open at once                                    three readers of different length open
+  len, sizes, sizeof, ids, meta, close       (different files, the same file twice)                                             (api-reuse two_open / same_file: once)
+                                           the index object (int array with negative entries,        seq  seq  seq  seq  -     seq: index (one object against readers of
+                                             other dtypes, list, tuple, range, bool mask, slice)                                different length, both orders; out of
+                                                                                                                                range for the shorter one -> IndexError,
+                                                                                                                                then used again)
+                                           results handed out earlier (arrays, sub-collections)      seq: held until the end of the script and compared again; `scribble`:
+                                                                                                      the caller overwrites one, the file must still give what was written
+                                           ids array / meta / extra of a loaded collection           seq: scribble_reader (changed by the caller, reader dropped, file loaded again)
+  `signatures info` (-i, -j, -j -p, plain)  process-wide state of the command-line modules            seq  n/a  seq  -    -     seq: cli_info interleaved over two paths,
+                                             (in-process CliRunner; click context object)                                       on refused content, between API calls
+  `signatures create`                       the same; worker processes forked while readers are open  seq  n/a  -    -    seq   seq: cli-create (+ cli / cli-forms: 13
+                                                                                                                                commands in one process, other parameters)
+  At the end of every script: the shared KmerSpec objects are unchanged, every result handed out earlier still is what it was, every
+  reader still open is observed again, every collection still is what its owner made it, every path slot is loaded afresh, and every
+  collection of the pool (collection 0 also through a plain AbstractSignatureArray, plus one collection made at that moment, without ids
+  and metadata) is written to a new path and loaded -- so that what a step left behind in an object, a class or a module shows in the
+  script that caused it and its replay (a new process) reproduces.
+  n/a = the object is immutable or cannot be reached by the callee.  (e): HDF5 readers are not advertised as thread-safe; h5py
+  serialises all calls, so a reader opened in the main thread is observed once from a second thread (joined) -- a smoke test.
+  Known in the unchanged code (counted, not judged): a load that refuses a readable HDF5 file leaves that file open until the garbage
+  collector runs, so writing a signature file to the same path directly afterwards fails with OSError (repo_fixes/
+  C12-refused-file-left-open.diff); `signatures info --json` raises AttributeError on a file whose `extra` is None
+  (repo_fixes/C12-info-json-extra-none.diff)."""
 import itertools
 import json
 import os
@@ -79,14 +130,24 @@ RULE = ('rt: collection -> dump_signatures -> load_signatures; non-trivial: >= 2
         'large / large after empty / after a run of medium ones / only large / no large / shuffled, k >= 8, held in every container '
         'kind (array, view, list, wrappers, user subclasses, a loaded file), with and without compression; judged by the property '
         'predicate only: parameters, ids, metadata, every int index, slices, index lists, bool mask, iteration, each compared '
-        'value for value with the integer type written; non-trivial: >= 2 different lengths')
+        'value for value with the integer type written; non-trivial: >= 2 different lengths.  '
+        'seq: a script of 3..20 calls over one pool of objects (2..3 collections of different length, a shared KmerSpec / SignaturesMeta, '
+        '4..6 index objects, 2 path slots, up to 3 open readers): write / write that fails part-way / foreign content to a path slot, load, '
+        'index with a pooled index object, observe, write an open reader to the other path, `signatures info` / `create` in process, '
+        'changes the owner makes between calls (a signature, an id, a metadata field, a key of extra), the caller overwriting a result it '
+        'was given; every step judged by the round-trip predicate / SignaturesFileError for what the path holds at that moment, plus: '
+        'objects handed in are unchanged after each call, the same call twice gives the same, results handed out earlier are still what '
+        'they were at the end, a fresh load of every path at the end; non-trivial: >= 2 steps carried out')
 TRUSTED = ['h5py / libhdf5: attribute and dataset semantics as modelled in Model/Store.v (typed 1-d arrays, '
            'Empty attributes, UTF-8 variable-length strings refusing NUL and surrogates, zero fill value); '
            'compression filters are transparent',
            'json.dumps / json.loads round-trip on JSON-representable values (sampled on every generated `extra`)',
            'NumPy: np.asarray of ids, dtype preservation, slicing of 1-d arrays',
            'sizes stream: numpy.random.default_rng / cumsum only produce the signatures to write (any sorted array of distinct '
-           'in-range values would do); read-back values are compared with numpy element-wise equality on equal dtypes']
+           'in-range values would do); read-back values are compared with numpy element-wise equality on equal dtypes',
+           'seq stream: h5py alone decides what a path slot holds after a foreign / failed write (readable HDF5? root group marked?); '
+           'hashlib.sha1 of array bytes for the unchanged-object comparison; gc.collect() releases file handles kept by dead frames; '
+           'threading.Thread / ProcessPoolExecutor fork as provided by CPython']
 ASSUMPTIONS = ['collections have >= 1 signature; ids are all-int or all-str; strings contain no NUL and no lone surrogate '
                '(h5py refuses those at write time with ValueError -- checked in the malformed stream)',
                'the sum of signature lengths fits numpy intp',
@@ -94,7 +155,12 @@ ASSUMPTIONS = ['collections have >= 1 signature; ids are all-int or all-str; str
                '"signature file" = HDF5 file whose root group carries the attribute gambit_signatures_version',
                'api stream: "the same integer type" of a list whose elements are wider / byte-swapped arrays is the dtype the collection '
                'declares (values are representable in it); for a collection written in non-native byte order only kind and width are '
-               'judged; strings are storable ones only; command line: k >= 5 and prefixes of >= 2 letters unless taken from --db-params']
+               'judged; strings are storable ones only; command line: k >= 5 and prefixes of >= 2 letters unless taken from --db-params',
+               'seq stream: the caller closes its readers of a path before that path is written again; a file left by a write that raised is '
+               'judged as "not a signature file" when its root group is unmarked and not judged when it is marked (C19); a result read from '
+               'a file opened read-only belongs to the caller (overwriting it cannot change what the file gives); private attributes that '
+               'the implementation adds to a caller object are allowed as long as what the object then does is still what its owner set; '
+               'the in-process command line keeps no state between commands that a new process would not have']
 BATCH = 150
 SHRINK = False
 
@@ -303,11 +369,12 @@ def observe_head(s, case, eq):
 	return bad
 
 
-def observe(s, case, dteq=None):
+def observe(s, case, dteq=None, full=True):
 	"""everything the property constrains about a loaded collection, checked against the harness's own
 	description; returns a list of differences (empty = property holds on this case).  `dteq` compares
 	integer types (default: exact dtype equality; the api stream passes `dteq_kind` for collections written
-	in non-native byte order, where only kind and width are constrained)"""
+	in non-native byte order, where only kind and width are constrained); full=False (sequence stream) replaces the
+	enumeration of all slices of collections of <= 3 signatures by the case's own slices"""
 	import numpy as np
 	eq = dteq or (lambda a, b: a == b)
 	sigs = case['sigs']
@@ -329,7 +396,7 @@ def observe(s, case, dteq=None):
 			bad.append(f'[{i}] did not raise')
 		except IndexError:
 			pass
-	slices = py_slices(n) if n <= 3 else [(a, b, None) for a, b in case.get('slices', [])] + [(None, None, None), (None, None, -1), (1, None, 2)]
+	slices = py_slices(n) if n <= 3 and full else [(a, b, None) for a, b in case.get('slices', [])] + [(None, None, None), (None, None, -1), (1, None, 2)]
 	for a, b, st in slices:
 		want = sigs[slice(a, b, st)]
 		got = s[a:b:st]
@@ -943,13 +1010,16 @@ def api_file1(case, ids_meta):
 	return path
 
 
-def api_build(case, keep):
-	"""the object handed to the writer; `keep` collects (open source collection, path) pairs to close afterwards"""
+def api_build(case, keep, ks=None):
+	"""the object handed to the writer; `keep` collects (open source collection, path) pairs to close afterwards;
+	`ks`: a KmerSpec object to use (the sequence stream shares one between collections)"""
 	from gambit.sigs import AnnotatedSignatures, SignaturesMeta, load_signatures
 	from gambit.sigs.base import ReferenceSignatures
-	ks = api_kmerspec(case)
+	ks = ks or api_kmerspec(case)
 	wrap = case.get('wrap', 'none')
 	m = case.get('meta')
+	if m is not None and case.get('meta_noextra') and m.get('extra') == {}:
+		m = {f: v for f, v in m.items() if f != 'extra'}      # `extra` left to the class default
 	meta = None if m is None else SignaturesMeta(**m)
 	if wrap in ('reloaded', 'annot_reloaded'):
 		other = (('str', None, [f'old{i}' for i in range(len(case['sigs']))]),
@@ -1092,11 +1162,14 @@ def mk_index(spec, n):
 	raise ValueError(t)
 
 
-def apply_spec(coll, sigs, spec, dt, eq, ks, bad, label=''):
-	"""index `coll` (whose content must be `sigs`) as spec says and compare with what a Python list gives"""
+def apply_spec(coll, sigs, spec, dt, eq, ks, bad, label='', idx=None, keep=None):
+	"""index `coll` (whose content must be `sigs`) as spec says and compare with what a Python list gives;
+	`idx`: an index object built earlier from the same spec (sequence stream: one object used several times);
+	`keep`: list receiving (description, result, expected) of every result that was right"""
 	import numpy as np
 	n = len(sigs)
-	idx, want = mk_index(spec, n)
+	fresh, want = mk_index(spec, n)
+	idx = fresh if idx is None else idx
 	desc = f'{label}[{ {k: v for k, v in spec.items() if k != "then"} }]'
 	try:
 		got = coll[idx]
@@ -1117,6 +1190,8 @@ def apply_spec(coll, sigs, spec, dt, eq, ks, bad, label=''):
 	if isinstance(want, int):
 		if not same(got, sigs[want]):
 			bad.append(f'{desc} = {got!r}, written {sigs[want]}')
+		elif keep is not None:
+			keep.append((desc, got, sigs[want]))
 		return
 	exp = [sigs[i] for i in want]
 	try:
@@ -1128,6 +1203,8 @@ def apply_spec(coll, sigs, spec, dt, eq, ks, bad, label=''):
 	if not ok:
 		bad.append(f'{desc} -> {[list(map(int, x)) for x in got]!r} dtype {got.dtype}, written {exp}')
 		return
+	if keep is not None:
+		keep.append((desc, got, exp))
 	if spec.get('then') is not None and exp:
 		apply_spec(got, exp, spec['then'], dt, eq, ks, bad, label=desc)
 
@@ -1626,8 +1703,675 @@ def k_foreign2(ctx, cases):
 			              model='not modelled (reader entry point outside Model/Store.v)')
 
 
+# ---- sequences of calls over shared objects: state and aliasing (property predicate only) ---------------------------
+
+SEQ_BASES = ('array', 'list', 'array_view', 'array_offset', 'list_from_array', 'array_from_list', 'array_copy', 'list_mutated', 'array_fancy',
+             'custom_plain')
+SEQ_WRAPS = ('none', 'annot', 'annot_annot', 'custom_ref')
+SEQ_WRITERS = ('dump', 'dump_fmt_kw', 'dump_kwargs', 'base', 'hdf5', 'create_root')
+SEQ_READERS = ('load', 'base', 'hdf5', 'class', 'load_kwargs')
+SEQ_FOREIGN = ('empty', 'text', 'fasta', 'magic_garbage', 'json', 'hdf_empty', 'hdf_nomark_full', 'hdf_nested_sigs', 'hdf_float', 'truncated')
+SEQ_FAILS = ('getitem_raises', 'bad_comp', 'ids_len')
+
+
+def fp(x, depth=0, seen=frozenset()):
+	"""structural fingerprint of an object the caller handed to the implementation: types, public and existing private
+	attributes, array dtype / shape / strides / writeable flag / content (h5py objects: their name only)"""
+	import hashlib
+	import h5py
+	import numpy as np
+	if x is None or isinstance(x, (bool, int, float, str, bytes)):
+		return [type(x).__name__, repr(x)]
+	if isinstance(x, np.generic):
+		return ['np.' + x.dtype.str, repr(x.item())]
+	if isinstance(x, np.dtype):
+		return ['dtype', x.str]
+	if isinstance(x, type):
+		return ['type', x.__name__]
+	if isinstance(x, np.ndarray):
+		body = repr(x.tolist()) if x.dtype.kind in 'OUS' else hashlib.sha1(np.ascontiguousarray(x).tobytes()).hexdigest()
+		return ['ndarray', x.dtype.str, list(x.shape), list(x.strides), bool(x.flags.writeable), body]
+	if isinstance(x, range):
+		return ['range', repr(x)]
+	if isinstance(x, (h5py.Dataset, h5py.Group, h5py.File, h5py.AttributeManager)):
+		return [type(x).__name__, bool(x) and getattr(x, 'name', None)]
+	if id(x) in seen or depth > 8:
+		return ['...']
+	seen = seen | {id(x)}
+	if isinstance(x, (list, tuple)):
+		return [type(x).__name__, [fp(y, depth + 1, seen) for y in x]]
+	if isinstance(x, dict):
+		return ['dict', sorted([repr(k), fp(v, depth + 1, seen)] for k, v in x.items())]
+	d = getattr(x, '__dict__', None)
+	if d is not None:
+		return ['obj:' + type(x).__name__, {str(k): fp(v, depth + 1, seen) for k, v in d.items()}]
+	return [type(x).__name__, repr(x)]
+
+
+def fp_diff(a, b, where='object'):
+	"""first difference between two fingerprints (None = the same); private attributes that only appear afterwards
+	(a memo the implementation keeps on the object) are not a difference"""
+	if isinstance(a, list) and isinstance(b, list) and len(a) == 2 and len(b) == 2 and isinstance(a[1], dict) and isinstance(b[1], dict):
+		if a[0] != b[0]:
+			return f'{where}: type {a[0]} became {b[0]}'
+		for k in a[1]:
+			if k not in b[1]:
+				return f'{where}.{k} was deleted'
+			d = fp_diff(a[1][k], b[1][k], f'{where}.{k}')
+			if d:
+				return d
+		for k in b[1]:
+			if k not in a[1] and not k.startswith('_'):
+				return f'{where}.{k} appeared'
+		return None
+	if isinstance(a, list) and isinstance(b, list) and len(a) == len(b) == 2 and a[0] == b[0] and a[0] in ('list', 'tuple') \
+			and len(a[1]) == len(b[1]):
+		for i, (x, y) in enumerate(zip(a[1], b[1])):
+			d = fp_diff(x, y, f'{where}[{i}]')
+			if d:
+				return d
+		return None
+	if a != b:
+		return f'{where}: {str(a)[:160]} became {str(b)[:160]}'
+	return None
+
+
+def seq_inner(obj):
+	"""the in-memory container at the bottom of a stack of wrappers (None for user subclasses)"""
+	from gambit.sigs import SignatureArray, SignatureList, AnnotatedSignatures
+	while isinstance(obj, AnnotatedSignatures):
+		obj = obj.signatures
+	return obj if isinstance(obj, (SignatureArray, SignatureList)) else None
+
+
+def seq_flaky(obj, how, at):
+	"""a collection that hands out the signatures, ids and metadata OBJECTS of `obj` but fails part-way through being written"""
+	import numpy as np
+	from gambit.sigs.base import AbstractSignatureArray, ReferenceSignatures, SignaturesMeta
+	isref = isinstance(obj, ReferenceSignatures)
+	n = len(obj)
+
+	class Flaky(ReferenceSignatures if (isref or how == 'ids_len') else AbstractSignatureArray):
+		def __init__(self):
+			self.kmerspec, self.dtype = obj.kmerspec, obj.dtype
+			if isref:
+				self.ids, self.meta = obj.ids, obj.meta
+			if how == 'ids_len':
+				self.ids = list(obj.ids if isref else range(n)) + [0]
+				self.meta = obj.meta if isref else SignaturesMeta()
+
+		def __len__(self):
+			return n
+
+		def sizes(self):
+			return np.array([len(obj[i]) for i in range(n)], dtype=int)
+
+		def __getitem__(self, i):
+			if how == 'getitem_raises' and isinstance(i, (int, np.integer)) and i % n == at % n:
+				raise RuntimeError('the source of signature %d failed' % i)
+			return obj[i]
+	return Flaky()
+
+
+def h5_class(path):
+	"""'marked' / 'hdf' (readable HDF5 whose root group is unmarked) / 'raw', decided with h5py alone"""
+	import h5py
+	try:
+		with h5py.File(path, 'r') as f:
+			return 'marked' if 'gambit_signatures_version' in f.attrs else 'hdf'
+	except Exception:
+		return 'raw'
+
+
+def seq_observe(s, desc):
+	n = len(desc['sigs'])
+	return observe(s, dict(desc, idx=[[0, 0, n - 1], [n - 1]], slices=[[0, n], [n // 2, n]]), None, full=False)
+
+
+def seq_run(c, count):
+	"""runs the script of case c; returns (differences, number of steps carried out).  Objects live for the whole script:
+	collections (objs), KmerSpec objects shared between collections with equal parameters, index objects (idxo), path slots,
+	open readers and every result an indexing step returned (held)."""
+	import copy
+	import gc
+	import shutil
+	import threading
+	import traceback
+	import numpy as np
+	import h5py
+	import click.testing
+	import gambit.cli
+	import gambit.sigs
+	import gambit.sigs.base
+	import gambit.sigs.hdf5
+	from gambit.sigs import SignatureArray, SignatureList
+	bad = []
+	done = 0
+	steps = c['steps']
+	d = tmp('seq')
+	os.makedirs(d)
+	npaths = 1 + max([st.get('p', 0) for st in steps] + [0])
+	paths = [os.path.join(d, f'slot{i}.gs') for i in range(npaths)]
+	files = [None] * npaths       # None | ('coll', description) | ('foreign', name) | ('unjudged', why)
+	leaky = [False] * npaths      # a refused load left an h5py handle to the garbage collector (see repo_fixes/C12-refused-file-left-open.diff)
+	readers = {}                  # slot -> dict(s=open collection, desc=description of the file when it was opened, p=path slot)
+	held = []                     # (description, result, expected) of earlier indexing steps; must stay right until the end
+	keep = []
+	descs = [copy.deepcopy(x) for x in c['colls']]
+	kss = {}
+	objs = []
+	idxo = [mk_index(spec, 1)[0] for spec in c.get('idxs', [])]
+	label = ''
+
+	def note(msg):
+		bad.append(f'{label}: {msg}')
+
+	def close_reader(r):
+		rd = readers.pop(r, None)
+		if rd is not None:
+			try:
+				rd['s'].close()
+			except Exception as e:
+				note(f'closing the reader raised {type(e).__name__}: {e}')
+
+	def before_write(p, by_impl):
+		for r in [r for r, rd in readers.items() if rd['p'] == p]:
+			close_reader(r)
+		if leaky[p] and not by_impl:
+			gc.collect()
+			leaky[p] = False
+
+	def impl_write(p, fn):
+		"""fn() writes path slot p through the implementation; returns the exception or None"""
+		before_write(p, True)
+		try:
+			fn()
+			return None
+		except Exception as e:
+			if not (isinstance(e, OSError) and leaky[p] and 'already open' in str(e)):
+				return e
+		# known: the file refused earlier is still held open by the refusing reader's frame until the garbage collector runs
+		count('seq:write-after-refused-load-of-same-path OSError until gc (known, repo_fixes/C12-refused-file-left-open.diff; retried)')
+		gc.collect()
+		leaky[p] = False
+		try:
+			fn()
+			return None
+		except Exception as e:
+			return e
+
+	def snapshot(obj):
+		return api_snapshot(obj), fp(obj)
+
+	def unchanged(what, obj, snap):
+		try:
+			now = snapshot(obj)
+		except Exception as e:
+			note(f'{what} was changed by the call: looking at it now raises {type(e).__name__}: {e}')
+			return
+		if now[0] != snap[0]:
+			note(f'{what} was changed by the call: content {str(now[0])[:300]} was {str(snap[0])[:300]}')
+		else:
+			dd = fp_diff(snap[1], now[1], what)
+			if dd:
+				note(f'{what} was changed by the call: {dd}')
+
+	def judge_file(p, transient_reader='load'):
+		"""the property on path slot p by a fresh load (closed again)"""
+		st = files[p]
+		if st is None or st[0] == 'unjudged':
+			return
+		try:
+			s = api_open(dict(reader=transient_reader), paths[p])
+		except Exception as e:
+			if st[0] == 'coll':
+				note(f'loading {os.path.basename(paths[p])} (holds collection {st[2]}) raised {type(e).__name__}: {e}')
+			elif errname(e) != 'SignaturesFileError':
+				note(f'{os.path.basename(paths[p])} holds {st[1]} (not a signature file) and is answered with {type(e).__name__}: {e}')
+			if h5_class(paths[p]) != 'raw':
+				leaky[p] = True
+			return
+		try:
+			if st[0] == 'coll':
+				for b in seq_observe(s, st[1]):
+					note(f'{os.path.basename(paths[p])} (holds collection {st[2]}): {b}')
+			else:
+				note(f'{os.path.basename(paths[p])} holds {st[1]} (not a signature file) and was loaded')
+		finally:
+			s.close()
+
+	def write_kw(st):
+		kw = {}
+		if st.get('comp') is not None:
+			kw['compression'] = st['comp']
+		if st.get('copts') is not None:
+			kw['compression_opts'] = st['copts']
+		return kw
+
+	def do_write(w, path, obj, kw, desc):
+		if w == 'dump_fmt_kw':
+			gambit.sigs.dump_signatures(path, obj, format='hdf5', **kw)
+		elif w == 'dump_kwargs':
+			gambit.sigs.dump_signatures(path=path, signatures=obj, **kw)
+		elif w == 'base':
+			gambit.sigs.base.dump_signatures(path, obj, **kw)
+		elif w == 'hdf5':
+			gambit.sigs.hdf5.dump_signatures_hdf5(path, obj, **kw)
+		elif w == 'create_root':
+			with h5py.File(path, 'w') as f:
+				got = gambit.sigs.hdf5.HDF5Signatures.create(f, obj, **kw)
+				if desc is not None:
+					for b in seq_observe(got, desc):
+						note('object returned by HDF5Signatures.create: ' + b)
+		else:
+			gambit.sigs.dump_signatures(path, obj, **kw)
+
+	def cli(args):
+		"""(exit code, output, class name and repr of the exception) of one in-process command.  A command that failed is kept alive
+		by the traceback in its Result (frames, and with them the file the command had opened; a real command line is a process
+		that ends): the Result is dropped and collected here, which is not a statement about the implementation"""
+		r = click.testing.CliRunner().invoke(gambit.cli.cli, args)
+		out = (r.exit_code, r.output, errname(r.exception) if isinstance(r.exception, Exception) else None, repr(r.exception))
+		if r.exit_code != 0:
+			del r
+			gc.collect(1)      # the frames of the command that just failed are young objects
+		return out
+
+	try:
+		for desc in descs:
+			kk = (desc['k'], desc['prefix']) if c.get('share_ks', True) else len(objs)
+			if kk not in kss:
+				kss[kk] = api_kmerspec(desc)
+			objs.append(api_build(desc, keep, ks=kss[kk]))
+			src = desc.get('meta_from')
+			if src is not None and src < len(objs) - 1 and hasattr(objs[src], 'meta') and hasattr(objs[-1], 'meta'):
+				# one SignaturesMeta object serves two collections
+				objs[-1].meta = objs[src].meta
+				desc['meta'] = copy.deepcopy(descs[src].get('meta'))
+				desc.pop('meta_noextra', None)
+		ks_fp = {kk: fp(v) for kk, v in kss.items()}
+		for num, st in enumerate(steps):
+			op = st['op']
+			label = f'step {num + 1} ({ {k: v for k, v in st.items() if k not in ("vals", "genomes", "v")} })'
+			p = st.get('p', 0)
+			r = st.get('r', 0)
+			i = st.get('c', 0) % len(objs)
+			if op == 'dump':
+				obj, desc = objs[i], descs[i]
+				snap = snapshot(obj)
+				kw = write_kw(st)
+				e = impl_write(p, lambda: do_write(st.get('writer', 'dump'), paths[p], obj, kw, desc))
+				unchanged(f'collection {i} handed to the writer', obj, snap)
+				if e is not None:
+					note(f'writing collection {i} raised {type(e).__name__}: {e}')
+					files[p] = ('unjudged', 'write failed')
+				else:
+					files[p] = ('coll', copy.deepcopy(desc), i)
+					if st.get('twice'):
+						# the same call again (other destination): the two files must have the same content
+						p2 = tmp('again') + '.gs'
+						try:
+							do_write(st.get('writer', 'dump'), p2, obj, kw, None)
+							if raw_store(p2) != raw_store(paths[p]):
+								note(f'writing collection {i} a second time gave a file with other content')
+						except Exception as e2:
+							note(f'writing collection {i} a second time raised {type(e2).__name__}: {e2}')
+						unchanged(f'collection {i} handed to the writer (second time)', obj, snap)
+						_rm(p2)
+					if st.get('check'):
+						judge_file(p)
+			elif op == 'dump_fail':
+				obj = objs[i]
+				how = st.get('how', 'getitem_raises')
+				snap = snapshot(obj)
+				kw = dict(compression='no-such-filter') if how == 'bad_comp' else write_kw(st)
+				src = obj if how == 'bad_comp' else seq_flaky(obj, how, st.get('at', 0))
+				e = impl_write(p, lambda: do_write(st.get('writer', 'dump'), paths[p], src, kw, None))
+				unchanged(f'collection {i} handed to the writer (call that failed)', obj, snap)
+				if e is None:
+					# nothing was raised although the source failed: the file is judged as holding the collection
+					files[p] = ('coll', copy.deepcopy(descs[i]), i)
+				else:
+					cl = h5_class(paths[p])
+					files[p] = ('unjudged', 'marked after a failed write (C19)') if cl == 'marked' else ('foreign', f'what the failed write ({how}) left behind')
+				del src
+			elif op == 'foreign':
+				name = st['content']
+				if name == 'truncated':
+					if files[p] is None or files[p][0] != 'coll':
+						name = 'magic_garbage'
+				before_write(p, False)
+				if name == 'truncated':
+					import random
+					with open(paths[p], 'rb') as f:
+						raw = f.read()
+					with open(paths[p], 'wb') as f:
+						f.write(raw[:random.Random(st['seed']).randint(8, len(raw) * 3 // 4)])
+				elif name.startswith('hdf_'):
+					t = tmp('fxs')
+					fx_content(name, st['seed'], t)
+					os.replace(t, paths[p])
+				else:
+					fx_content(name, st['seed'], paths[p])
+				files[p] = ('unjudged', 'marked but defective') if h5_class(paths[p]) == 'marked' else ('foreign', name)
+				if st.get('check'):
+					judge_file(p)
+			elif op == 'load':
+				if files[p] is None:
+					count('seq:step-not-applicable')
+					continue
+				close_reader(r)
+				fst = files[p]
+				rdr = st.get('reader', 'load')
+				if rdr == 'class' and fst[0] != 'coll' and h5_class(paths[p]) == 'raw':
+					rdr = 'load'      # HDF5Signatures(group) takes an open HDF5 group: content that is not HDF5 cannot be offered to it
+				for rep in range(2 if st.get('twice') else 1):
+					try:
+						s = api_open(dict(reader=rdr, rkw=st.get('rkw')), paths[p])
+					except Exception as e:
+						if fst[0] == 'coll':
+							note(f'loading the file that holds collection {fst[2]} raised {type(e).__name__}: {e}')
+						elif fst[0] == 'foreign' and errname(e) != 'SignaturesFileError':
+							note(f'a file that is not a signature file ({fst[1]}) is answered with {type(e).__name__}: {e}')
+						if h5_class(paths[p]) != 'raw':
+							leaky[p] = True
+						continue
+					if fst[0] == 'foreign':
+						note(f'a file that is not a signature file ({fst[1]}) was loaded')
+						s.close()
+					elif fst[0] == 'unjudged':
+						s.close()
+					else:
+						for b in seq_observe(s, fst[1]):
+							note(b)
+						if rep == 0 and st.get('twice'):
+							s.close()
+						else:
+							readers[r] = dict(s=s, desc=copy.deepcopy(fst[1]), p=p)
+			elif op in ('observe', 'thread'):
+				if r not in readers:
+					count('seq:step-not-applicable')
+					continue
+				rd = readers[r]
+				if op == 'observe':
+					for b in seq_observe(rd['s'], rd['desc']) + observe_more(rd['s'], dict(rd['desc'], xidx=[]), lambda a, b: a == b):
+						note(b)
+				else:
+					out = []
+
+					def work():
+						try:
+							out.extend(seq_observe(rd['s'], rd['desc']))
+						except Exception as e:
+							out.append(f'{type(e).__name__}: {e}')
+					t = threading.Thread(target=work)
+					t.start()
+					t.join()
+					for b in out:
+						note('in a second thread: ' + b)
+			elif op == 'index':
+				j = st.get('j', 0) % max(1, len(idxo))
+				if r not in readers or not idxo:
+					count('seq:step-not-applicable')
+					continue
+				rd = readers[r]
+				spec = c['idxs'][j]
+				before = fp(idxo[j])
+				dt = np.dtype(rd['desc']['dtype'])
+				res = []
+				for rep in range(2):
+					b2, k2 = [], []
+					apply_spec(rd['s'], rd['desc']['sigs'], spec, dt, lambda a, b: a == b, rd['s'].kmerspec, b2, idx=idxo[j], keep=k2)
+					res.append(b2)
+					for b in b2:
+						note(('' if rep == 0 else 'same call again: ') + b)
+					dd = fp_diff(before, fp(idxo[j]), f'index object {j}')
+					if dd:
+						note(f'the index object handed to the collection was changed by indexing: {dd}')
+						before = fp(idxo[j])
+					held.extend(k2)
+				if bool(res[0]) != bool(res[1]):
+					note('the same indexing call gave different results the second time')
+			elif op == 'scribble':
+				# the caller overwrites a result it obtained earlier; what the file holds cannot change by that
+				if not held:
+					count('seq:step-not-applicable')
+					continue
+				desc_h, got, exp = held.pop(st.get('h', 0) % len(held))
+				arr = got if isinstance(got, np.ndarray) else getattr(got, 'values', None)
+				if isinstance(arr, np.ndarray) and arr.flags.writeable and len(arr):
+					arr[...] = arr + 1
+				else:
+					count('seq:step-not-applicable')
+					continue
+			elif op == 'scribble_reader':
+				# the caller changes the ids array / metadata of a loaded collection and drops it; later loads are unaffected
+				if r not in readers:
+					count('seq:step-not-applicable')
+					continue
+				s = readers[r]['s']
+				try:
+					if isinstance(s.meta.extra, dict):
+						s.meta.extra['scribbled'] = [1, 2]
+					s.meta.name = 'scribbled'
+					s.meta.id = None
+					if isinstance(s.ids, np.ndarray) and s.ids.flags.writeable and len(s.ids):
+						s.ids[0] = 'scribbled' if s.ids.dtype.kind in 'OU' else 99
+				finally:
+					close_reader(r)
+			elif op == 'mutate':
+				# a change the caller is entitled to make between two calls; the description follows it
+				obj, desc = objs[i], descs[i]
+				how = st['how']
+				n = len(desc['sigs'])
+				if how in ('meta_field', 'extra_key', 'ids_set') and desc.get('wrap', 'none') == 'none':
+					count('seq:step-not-applicable')
+					continue
+				sharers = [dd for oo, dd in zip(objs, descs) if getattr(oo, 'meta', None) is getattr(obj, 'meta', 0)]
+				if how == 'meta_field':
+					for dd in sharers:
+						dd['meta'] = eff_meta(dd)
+						dd['meta'][st['f']] = st['v']
+					setattr(obj.meta, st['f'], st['v'])
+				elif how == 'extra_key':
+					inplace = isinstance(obj.meta.extra, dict)
+					for dd in sharers:
+						dd['meta'] = eff_meta(dd)
+						dd['meta']['extra'] = dict((dd['meta']['extra'] or {}) if inplace else {}, **{st['key']: copy.deepcopy(st['v'])})
+					if inplace:
+						obj.meta.extra[st['key']] = copy.deepcopy(st['v'])
+					else:
+						obj.meta.extra = {st['key']: copy.deepcopy(st['v'])}
+				elif how == 'ids_set':
+					if desc.get('ids') is None:
+						count('seq:step-not-applicable')
+						continue
+					jj = st['j'] % n
+					v = st['v'][0] if desc['ids']['kind'] == 'int' else st['v'][1]
+					desc['ids']['vals'][jj] = v
+					if isinstance(obj.ids, list) or (isinstance(obj.ids, np.ndarray) and obj.ids.flags.writeable and obj.ids.dtype.kind in 'iuO'):
+						obj.ids[jj] = v
+					else:
+						new = list(obj.ids)
+						new[jj] = v
+						obj.ids = np.array(new, dtype=desc['ids']['dtype']) if desc['ids'].get('dtype') else new
+				elif how in ('sig_flip', 'sig_replace'):
+					inner = seq_inner(obj)
+					jj = st['j'] % n
+					dt = np.dtype(desc['dtype'])
+					top = min(4 ** desc['k'] - 1, int(np.iinfo(dt).max))
+					new = sorted(top - v for v in desc['sigs'][jj]) if how == 'sig_flip' else sorted({v % (top + 1) for v in st['vals']})
+					if inner is None or (isinstance(inner, SignatureArray) and (len(new) != len(desc['sigs'][jj]) or not inner.values.flags.writeable)):
+						count('seq:step-not-applicable')
+						continue
+					if isinstance(inner, SignatureList):
+						inner[jj] = np.array(new, dtype=dt)
+					else:
+						inner[jj][...] = np.array(new, dtype=dt)
+					desc['sigs'][jj] = new
+				else:
+					raise ValueError(how)
+			elif op == 'redump':
+				if r not in readers or readers[r]['p'] == p:
+					count('seq:step-not-applicable')
+					continue
+				rd = readers[r]
+				snap = snapshot(rd['s'])
+				kw = write_kw(st)
+				e = impl_write(p, lambda: do_write(st.get('writer', 'dump'), paths[p], rd['s'], kw, rd['desc']))
+				unchanged(f'open reader {r} handed to the writer', rd['s'], snap)
+				if e is not None:
+					note(f'writing the loaded collection raised {type(e).__name__}: {e}')
+					files[p] = ('unjudged', 'write failed')
+				else:
+					files[p] = ('coll', copy.deepcopy(rd['desc']), f'read from {os.path.basename(paths[rd["p"]])}')
+			elif op == 'cli_info':
+				fst = files[p]
+				if fst is None or fst[0] == 'unjudged':
+					count('seq:step-not-applicable')
+					continue
+				mode = st.get('mode', 'i')
+				code, out, exc, excr = cli(['signatures', 'info'] + {'i': ['-i'], 'j': ['-j'], 'jp': ['--json', '--pretty'], 'plain': []}[mode] + [paths[p]])
+				if fst[0] == 'foreign':
+					if code == 0 or exc != 'SignaturesFileError':
+						note(f'`signatures info` on a file that is not a signature file ({fst[1]}): exit {code}, {excr}')
+					if h5_class(paths[p]) != 'raw':
+						leaky[p] = True
+				else:
+					desc = fst[1]
+					_, _, ivals = eff_ids(desc)
+					m = eff_meta(desc)
+					if code != 0 and mode in ('j', 'jp') and m['extra'] is None and exc == 'AttributeError':
+						# known: the JSON report cannot be produced for a file whose `extra` is None (a value the file format stores and
+						# load_signatures returns); a single-call defect of the report, not of the round trip
+						count('seq:info --json on a file whose extra is None: AttributeError (known, repo_fixes/C12-info-json-extra-none.diff; not judged)')
+					elif code != 0:
+						note(f'`signatures info` on the file that holds collection {fst[2]}: exit {code}, {excr}')
+					elif mode == 'i':
+						if out != ''.join(f'{x}\n' for x in ivals):
+							note(f'`signatures info -i` prints {out!r}, the file holds ids {ivals!r}')
+					elif mode in ('j', 'jp') and m['extra'] is None:
+						pass
+					elif mode in ('j', 'jp'):
+						try:
+							info = json.loads(out)
+							ok = info['count'] == len(desc['sigs']) and info['kmerspec'] == dict(k=desc['k'], prefix=desc['prefix']) and \
+								all(info['metadata'].get(f) == m[f] for f in m)
+						except Exception:
+							ok = False
+						if not ok:
+							note(f'`signatures info -j` reports {out[:300]!r}, the file holds collection {fst[2]}')
+					else:
+						lines = [ln.strip() for ln in out.split('\n')]
+						want = {'Genome Count:': str(len(desc['sigs'])), 'k:': str(desc['k']), 'Prefix:': desc['prefix'], 'Data type:': np.dtype(desc['dtype']).name}
+						got = {lb: next((ln[len(lb):].strip() for ln in lines if ln.startswith(lb)), None) for lb in want}
+						if got != want:
+							note(f'`signatures info` reports {got}, the file holds {want}')
+			elif op == 'cli_create':
+				gd = os.path.join(d, f'genomes{num}')
+				os.makedirs(gd)
+				fps = []
+				for gi, contigs in enumerate(st['genomes']):
+					fn = os.path.join(gd, f'g{gi}.fasta')
+					with open(fn, 'w') as f:
+						for cj, sq in enumerate(contigs):
+							f.write(f'>c{cj}\n{sq}\n')
+					fps.append(fn)
+				res = []
+				e = impl_write(p, lambda: res.append(cli(['signatures', 'create', '-o', paths[p], '-k', str(st['k']), '-p', st['prefix'], '--no-progress'] + fps)))
+				if e is not None or res[-1][0] != 0:
+					note(f'`signatures create` failed: {e!r} {res and res[-1][:1] + res[-1][2:]}')
+					files[p] = ('unjudged', 'write failed')
+				else:
+					files[p] = ('coll', dict(k=st['k'], prefix=st['prefix'], dtype=index_dtype(st['k']), container='annot_list', wrap='annot',
+					                         sigs=[naive_signature(st['k'], st['prefix'], g) for g in st['genomes']],
+					                         ids=dict(kind='str', vals=[f'g{gi}' for gi in range(len(fps))]), meta=None), 'written by `signatures create`')
+					if st.get('check'):
+						judge_file(p)
+			else:
+				raise ValueError(op)
+			done += 1
+		# ---- at the end of the script: nothing seen earlier has drifted
+		label = 'at the end of the script'
+		for kk, v in kss.items():
+			dd = fp_diff(ks_fp[kk], fp(v), f'KmerSpec{kk}')
+			if dd:
+				note(f'a KmerSpec shared by the collections was changed: {dd}')
+		for desc_h, got, exp in held:
+			try:
+				now = [int(v) for v in got] if isinstance(got, np.ndarray) else [[int(v) for v in x] for x in got]
+			except Exception as e:
+				now = f'{type(e).__name__}: {e}'
+			if now != exp:
+				note(f'a result returned earlier ({desc_h}) has changed since: {str(now)[:200]}, was {str(exp)[:200]}')
+		for r in sorted(readers):
+			label = f'at the end of the script, reader {r} (open since its load step)'
+			for b in seq_observe(readers[r]['s'], readers[r]['desc']):
+				note(b)
+		for r in sorted(readers):
+			close_reader(r)
+		for i, (obj, desc) in enumerate(zip(objs, descs)):
+			label = f'at the end of the script, collection {i}'
+			want = (desc['sigs'], int(desc['k']), desc['prefix'], str(np.dtype(desc['dtype'])))
+			now = api_snapshot(obj)
+			if (now[0], now[4][0], now[4][1], now[3]) != want:
+				note(f'the collection no longer is what its owner made it: {str(now)[:300]}, expected {str(want)[:300]}')
+		for p in range(npaths):
+			label = f'at the end of the script, fresh load of path slot {p}'
+			judge_file(p, c.get('final_reader', 'load'))
+		# every collection of the pool once more to a fresh path, collection 0 also through a plain AbstractSignatureArray (the
+		# writer's general path), and one collection made now: whatever an earlier step left behind -- in the objects, the classes
+		# or the modules -- shows in THIS script, so that its replay (a new process) shows it too
+		fresh = dict(k=4, prefix='AT', dtype='u1', sigs=[[1], [], [2, 3]], container='array', base='array', wrap='none', ids=None, meta=None)
+		for i, (obj, desc) in enumerate(zip(objs + [api_build(fresh, keep)], descs + [fresh])):
+			for how in ('as it is', 'through a plain AbstractSignatureArray')[:2 if i == 0 else 1]:
+				label = f'at the end of the script, collection {i} written once more ({how})' if i < len(objs) else \
+					'at the end of the script, a new collection without ids and metadata written and loaded'
+				pth = tmp('epi') + '.gs'
+				try:
+					gambit.sigs.dump_signatures(pth, obj if how == 'as it is' else seq_flaky(obj, 'none', 0))
+					with gambit.sigs.load_signatures(pth) as s2:
+						for b in seq_observe(s2, desc):
+							note(b)
+				except Exception as e:
+					note(f'{type(e).__name__}: {e}')
+				_rm(pth)
+	except Exception as e:
+		tb = traceback.extract_tb(e.__traceback__)[-1]
+		bad.append(f'{label}: harness could not continue: {type(e).__name__}: {e} ({os.path.basename(tb.filename)}:{tb.lineno})')
+	finally:
+		for r in list(readers):
+			try:
+				readers[r]['s'].close()
+			except Exception:
+				pass
+		for src, pth in keep:
+			try:
+				src.close()
+			except Exception:
+				pass
+			if pth:
+				_rm(pth)
+		readers.clear()
+		held.clear()
+		if any(leaky):
+			gc.collect()
+		shutil.rmtree(d, ignore_errors=True)
+	return bad, done
+
+
+def k_seq(ctx, cases):
+	for c in cases:
+		bad, done = seq_run(c, ctx.count)
+		ctx.case(c, nontrivial=done >= 2)
+		if bad:
+			ctx.violation('seq', c, 'sequence of calls over shared objects: ' + '; '.join(bad[:3]), impl=bad[:10],
+			              spec='every step as if made on fresh objects, caller objects unchanged, same call same result',
+			              model='not modelled (Model/Store.v has no state between calls; sequences are judged by the property predicate)')
+
+
 KINDS = {'rt': k_rt, 'foreign': k_foreign, 'malformed': k_malformed, 'cli': k_cli, 'api': k_api, 'foreign2': k_foreign2,
-         'sizes': k_sizes}
+         'sizes': k_sizes, 'seq': k_seq}
 
 # ---- generators ----------------------------------------------------------------------------------------------
 
@@ -1768,6 +2512,8 @@ def generate(ctx):
 	yield from gen_cli2(ctx, rng)
 	# ---- signature size classes around powers of two x order x container kind (property predicate only)
 	yield from gen_sizes(ctx, rng)
+	# ---- sequences of calls over shared objects: state and aliasing (property predicate only)
+	yield from gen_seq(ctx, rng)
 
 
 def real_file_bytes(rng, comp):
@@ -2126,3 +2872,242 @@ def gen_sizes(ctx, rng):
 			for order in SZ_ORDERS:
 				ctx.count('stream:size-classes')
 				yield 'sizes', rsize_case(rng, base, wrap, order)
+
+
+# ---- generator of the sequence stream ---------------------------------------------------------------------------
+
+SEQ_IDWORDS = ['a', 'b', 'é', '漢字', 'x y', 'G1', '😀', 'id', '0', 'Ωm']
+SEQ_XTYPES = ('int', 'arr', 'arr', 'arr', 'seq', 'seq', 'range', 'bool', 'slice', 'slice')
+
+
+def rseq_coll(rng, n, kp=None):
+	"""description of one small collection of n signatures for the sequence stream"""
+	k, prefix = kp or (rng.choice([1, 4, 5, 8, 9, 11, 16, 17, 32, rng.randint(1, 32)]), ''.join(rng.choice('ACGT') for _ in range(rng.randint(0, 5))))
+	dtype = index_dtype(k) if rng.random() < 0.7 else rng.choice(list(DT))
+	wrap = rng.choice(SEQ_WRAPS)
+	base = 'array' if wrap == 'custom_ref' else rng.choice(SEQ_BASES)
+	c = dict(k=k, prefix=prefix, dtype=dtype, sigs=[rsig(rng, k, rng.choice([3, 10]), dtype) for _ in range(n)], seed=rng.randrange(10 ** 6),
+	         base=base, wrap=wrap)
+	if wrap == 'none':
+		c.update(container='array' if base.startswith('array') else 'list', ids=None, meta=None)
+		return c
+	r = rng.random()
+	if r < 0.15:
+		ids = None
+	elif r < 0.55:
+		ids = dict(kind='str', vals=[rng.choice(SEQ_IDWORDS) + str(i) for i in range(n)], **{'as': rng.choice(['list', 'list', 'U', 'O'])})
+	else:
+		dt = rng.choice([None, 'i8', 'u8', 'i4', 'u2', 'i1'])
+		ids = dict(kind='int', dtype=dt, vals=[rng.randint(0, 120) for _ in range(n)])
+	c.update(container='annot_list', ids=ids, meta=rmeta(rng))
+	if c['meta'] is not None and c['meta']['extra'] == {} and rng.random() < 0.7:
+		c['meta_noextra'] = True
+	return c
+
+
+def rseq_pool(rng, ncoll=None):
+	"""2..3 collections of different lengths (two of them may share their k-mer parameters, hence one KmerSpec object) and 3..4 index
+	objects drawn for those lengths (so that some are out of range for the shorter collections)"""
+	ncoll = ncoll or rng.choice([2, 2, 3])
+	ns = rng.sample(range(1, 8), ncoll)
+	colls = []
+	for n in ns:
+		kp = (colls[0]['k'], colls[0]['prefix']) if colls and rng.random() < 0.4 else None
+		colls.append(rseq_coll(rng, n, kp))
+	idxs = []
+	for _ in range(rng.randint(3, 4)):
+		n = rng.choice(ns)
+		spec = rxspec(rng, n, rng.choice(SEQ_XTYPES))
+		if spec['t'] == 'arr' and spec.get('how') == 'readonly':
+			spec['how'] = 'plain'        # a writeable array is the one a write-back would show on
+		idxs.append(spec)
+	# one writeable platform-integer array with negative entries, valid for every collection of the pool
+	lo = min(ns)
+	idxs.append(dict(t='int', dt=rng.choice(['py', 'py', 'i8', 'i2']), v=rng.randrange(-lo, lo)))
+	idxs.append(dict(t='arr', dt=rng.choice(['i8', 'i8', 'i4']), v=[rng.randrange(-lo, lo) for _ in range(rng.randint(2, 4))] + [-1], how='plain'))
+	wrapped = [i for i, x in enumerate(colls) if x['wrap'] != 'none']
+	if len(wrapped) >= 2 and rng.random() < 0.3:
+		colls[wrapped[1]]['meta_from'] = wrapped[0]
+	return colls, idxs
+
+
+def seq_dump(rng, c, p, **kw):
+	comp = rng.choice([None, None, 'gzip', 'lzf'])
+	st = dict(op='dump', c=c, p=p, comp=comp, writer=rng.choice(SEQ_WRITERS), **kw)
+	if comp == 'gzip' and rng.random() < 0.4:
+		st['copts'] = rng.choice([0, 1, 9])
+	if rng.random() < 0.3:
+		st['twice'] = True
+	if rng.random() < 0.3:
+		st['check'] = True
+	return st
+
+
+def seq_load(rng, p, r, **kw):
+	st = dict(op='load', p=p, r=r, reader=rng.choice(SEQ_READERS), **kw)
+	if rng.random() < 0.3:
+		st['rkw'] = {'mode': 'r'}
+	if rng.random() < 0.25:
+		st['twice'] = True
+	return st
+
+
+def seq_foreign(rng, p, content=None):
+	return dict(op='foreign', p=p, content=content or rng.choice(SEQ_FOREIGN), seed=rng.randrange(10 ** 6))
+
+
+def seq_mutate(rng, c, how=None):
+	how = how or rng.choice(['meta_field', 'extra_key', 'ids_set', 'sig_flip', 'sig_flip', 'sig_replace'])
+	st = dict(op='mutate', c=c, how=how)
+	if how == 'meta_field':
+		st.update(f=rng.choice(META_FIELDS), v=rng.choice([None, '', 'changed', 'é 漢', rstr(rng)]))
+	elif how == 'extra_key':
+		st.update(key=rng.choice(['added', 'é', 'revision']), v=rng.choice([1, None, 'x', [1, {'a': None}], {'n': [1.5, 'é']}]))
+	elif how == 'ids_set':
+		st.update(j=rng.randrange(8), v=[rng.randint(0, 120), rng.choice(SEQ_IDWORDS) + '-new'])
+	else:
+		st.update(j=rng.randrange(8))
+		if how == 'sig_replace':
+			st['vals'] = [rng.randrange(4 ** 16) for _ in range(rng.randint(0, 6))]
+	return st
+
+
+def seq_fail(rng, c, p, colls):
+	"""a write of collection c that fails part-way; a source that raises does so after at least one non-empty signature was read, if there is one"""
+	sigs = colls[c]['sigs']
+	late = [i for i in range(1, len(sigs)) if any(sigs[:i])]
+	return dict(op='dump_fail', c=c, p=p, how=rng.choice(SEQ_FAILS + ('getitem_raises',)), at=rng.choice(late) if late and rng.random() < 0.8 else rng.randrange(8),
+	            writer=rng.choice(SEQ_WRITERS), comp=rng.choice([None, 'gzip']))
+
+
+def seq_genomes(rng, prefix, k):
+	return [[''.join(rng.choice('ACGT') for _ in range(rng.randint(0, 30))) + prefix + ''.join(rng.choice('ACGT') for _ in range(k + rng.randint(0, 4)))
+	         for _ in range(rng.randint(1, 2))] for _ in range(rng.randint(1, 3))]
+
+
+def seq_template(rng, name, nidx, colls):
+	"""the scripts that put each dimension of the audit into every run (collections 0 and 1 differ in length)"""
+	A, B = rng.sample([0, 1], 2)
+	j, j2 = rng.randrange(nidx), nidx - 1
+	if name == 'path-reuse':
+		# one path holds one collection, then another (other length / parameters / integer type): cache keyed by path
+		return [seq_dump(rng, A, 0), seq_load(rng, 0, 0), dict(op='index', r=0, j=j), seq_dump(rng, B, 0), seq_load(rng, 0, 0),
+		        dict(op='index', r=0, j=j), dict(op='cli_info', p=0, mode=rng.choice(['i', 'j']))]
+	if name == 'foreign-then-real':
+		return [seq_foreign(rng, 0), seq_load(rng, 0, 0), seq_dump(rng, A, 0), seq_load(rng, 0, 0), seq_foreign(rng, 0), seq_load(rng, 0, 1),
+		        dict(op='cli_info', p=0, mode='i')]
+	if name == 'real-then-foreign':
+		return [seq_dump(rng, A, 0), seq_load(rng, 0, 0), seq_foreign(rng, 0), seq_load(rng, 0, 0), dict(op='cli_info', p=0, mode='j'),
+		        seq_dump(rng, B, 0), seq_load(rng, 0, 1), dict(op='cli_info', p=0, mode='i')]
+	if name == 'index-reuse':
+		# the same index objects against two open files of different length, in both orders
+		return [seq_dump(rng, 0, 0), seq_dump(rng, 1, 1), seq_load(rng, 0, A), seq_load(rng, 1, B), dict(op='index', r=0, j=j2), dict(op='index', r=1, j=j2),
+		        dict(op='index', r=0, j=j), dict(op='index', r=1, j=j), dict(op='index', r=0, j=j2), dict(op='observe', r=1)]
+	if name == 'failed-write':
+		# a write that fails part-way, then the same objects written again (same path or the other one)
+		return [seq_dump(rng, A, 0), seq_fail(rng, A, rng.choice([0, 1]), colls), seq_load(rng, 0, 0), seq_dump(rng, A, rng.choice([0, 1])),
+		        seq_fail(rng, B, 1, colls), seq_dump(rng, B, 1), seq_load(rng, 1, 1)]
+	if name == 'mutate-between':
+		# the owner changes the collection between two writes (signatures, ids, metadata fields, a key of `extra`)
+		return [seq_dump(rng, A, 0), seq_mutate(rng, A), seq_mutate(rng, A, rng.choice(['extra_key', 'meta_field', 'sig_flip'])), seq_dump(rng, A, rng.choice([0, 1])),
+		        seq_load(rng, 0, 0), seq_mutate(rng, A, 'extra_key'), seq_dump(rng, A, 1), seq_load(rng, 1, 1)]
+	if name == 'held-results':
+		# results of earlier calls stay what they were; overwriting one of them does not change what the file gives
+		j3 = nidx - 2      # the single-integer index of the pool
+		return [seq_dump(rng, A, 0), seq_load(rng, 0, 0), dict(op='index', r=0, j=j), dict(op='index', r=0, j=j2), dict(op='scribble', h=rng.randrange(8)),
+		        dict(op='index', r=0, j=j3), dict(op='scribble', h=-1), dict(op='index', r=0, j=j3), dict(op='index', r=0, j=j2), dict(op='scribble', h=-1),
+		        dict(op='index', r=0, j=j), dict(op='observe', r=0), dict(op='scribble_reader', r=0), seq_load(rng, 0, 1)]
+	if name == 'cli-interleaved':
+		return [seq_dump(rng, 0, 0), seq_dump(rng, 1, 1), dict(op='cli_info', p=A, mode='i'), dict(op='cli_info', p=B, mode='i'), dict(op='cli_info', p=A, mode='j'),
+		        seq_foreign(rng, B), dict(op='cli_info', p=B, mode='i'), dict(op='cli_info', p=A, mode=rng.choice(['i', 'plain', 'jp'])), seq_load(rng, A, 0)]
+	if name == 'cli-create':
+		k1, k2 = rng.sample([5, 6, 8, 9], 2)
+		p1, p2 = (''.join(rng.choice('ACGT') for _ in range(rng.randint(2, 3))) for _ in range(2))
+		return [dict(op='cli_create', p=0, k=k1, prefix=p1, genomes=seq_genomes(rng, p1, k1)), seq_load(rng, 0, 0), seq_dump(rng, A, 1), seq_load(rng, 1, 1),
+		        dict(op='cli_create', p=1, k=k2, prefix=p2, genomes=seq_genomes(rng, p2, k2)), dict(op='index', r=0, j=j2), dict(op='cli_info', p=1, mode='i')]
+	if name == 'redump':
+		# an open file is itself written to another path (with another filter) while it stays in use
+		return [seq_dump(rng, A, 0), seq_load(rng, 0, 0), dict(op='redump', r=0, p=1, comp=rng.choice(COMPRESSIONS), writer=rng.choice(SEQ_WRITERS)), seq_load(rng, 1, 1),
+		        dict(op='index', r=0, j=j2), dict(op='index', r=1, j=j2), seq_dump(rng, B, 1), dict(op='observe', r=0), seq_load(rng, 1, 1), dict(op='index', r=1, j=j2)]
+	if name == 'thread':
+		return [seq_dump(rng, A, 0), seq_load(rng, 0, 0), dict(op='thread', r=0), dict(op='index', r=0, j=j), seq_dump(rng, B, 1), seq_load(rng, 1, 1),
+		        dict(op='thread', r=1), dict(op='thread', r=0)]
+	raise ValueError(name)
+
+
+SEQ_TEMPLATES = ('path-reuse', 'foreign-then-real', 'real-then-foreign', 'index-reuse', 'failed-write', 'mutate-between', 'held-results',
+                 'cli-interleaved', 'redump', 'thread')
+
+
+def rseq_script(rng, colls, nidx):
+	"""a random script: a write first, then 2..6 further steps that are applicable given what the earlier ones did"""
+	ncoll = len(colls)
+	files = [None, None]
+	readers = {}
+	nheld = 0
+	steps = []
+
+	def put(st):
+		nonlocal nheld
+		steps.append(st)
+		op = st['op']
+		if op in ('dump', 'redump', 'dump_fail', 'foreign'):
+			files[st['p']] = 'coll' if op in ('dump', 'redump') else 'foreign'
+			for r in [r for r, p in readers.items() if p == st['p']]:
+				del readers[r]
+		elif op == 'load':
+			readers.pop(st['r'], None)
+			if files[st['p']] == 'coll':
+				readers[st['r']] = st['p']
+		elif op == 'index':
+			nheld += 1
+		elif op == 'scribble_reader':
+			readers.pop(st['r'], None)
+
+	put(seq_dump(rng, rng.randrange(ncoll), rng.randrange(2)))
+	for _ in range(rng.randint(2, 6)):
+		have = [p for p in (0, 1) if files[p]]
+		ops = [('dump', 4), ('foreign', 1.5), ('load', 4), ('mutate', 1.5), ('dump_fail', 1), ('cli_info', 1)]
+		if readers:
+			ops += [('index', 5), ('observe', 0.7), ('scribble_reader', 0.4), ('thread', 0.3), ('redump', 0.8)]
+		if nheld:
+			ops += [('scribble', 1.2)]
+		op = rng.choices([o for o, _ in ops], [w for _, w in ops])[0]
+		if op == 'dump':
+			put(seq_dump(rng, rng.randrange(ncoll), rng.randrange(2)))
+		elif op == 'foreign':
+			put(seq_foreign(rng, rng.randrange(2)))
+		elif op == 'load':
+			put(seq_load(rng, rng.choice(have), rng.randrange(3)))
+		elif op == 'mutate':
+			put(seq_mutate(rng, rng.randrange(ncoll)))
+		elif op == 'dump_fail':
+			put(seq_fail(rng, rng.randrange(ncoll), rng.randrange(2), colls))
+		elif op == 'cli_info':
+			put(dict(op='cli_info', p=rng.choice(have), mode=rng.choice(['i', 'i', 'j', 'jp', 'plain'])))
+		elif op == 'redump':
+			r = rng.choice(sorted(readers))
+			put(dict(op='redump', r=r, p=1 - readers[r], comp=rng.choice(COMPRESSIONS), writer=rng.choice(SEQ_WRITERS)))
+		elif op == 'scribble':
+			put(dict(op='scribble', h=rng.randrange(8)))
+		else:
+			put(dict(op=op, r=rng.choice(sorted(readers)), **({'j': rng.randrange(nidx)} if op == 'index' else {})))
+	return steps
+
+
+def gen_seq(ctx, rng):
+	for name in SEQ_TEMPLATES:
+		for _ in range(ctx.pick(8, 40)):
+			colls, idxs = rseq_pool(rng)
+			ctx.count('stream:seq-' + name)
+			yield 'seq', dict(colls=colls, idxs=idxs, steps=seq_template(rng, name, len(idxs), colls), final_reader=rng.choice(['load', 'base', 'hdf5']))
+	for _ in range(ctx.pick(2, 10)):
+		# `signatures create` starts worker processes (fork) while readers are open in this process
+		colls, idxs = rseq_pool(rng)
+		ctx.count('stream:seq-cli-create')
+		yield 'seq', dict(colls=colls, idxs=idxs, steps=seq_template(rng, 'cli-create', len(idxs), colls))
+	for _ in range(ctx.pick(110, 1500)):
+		colls, idxs = rseq_pool(rng)
+		ctx.count('stream:seq-random')
+		yield 'seq', dict(colls=colls, idxs=idxs, steps=rseq_script(rng, colls, len(idxs)), final_reader=rng.choice(['load', 'base', 'hdf5']),
+		                  share_ks=rng.random() < 0.8)
